@@ -26,7 +26,8 @@ h = common.repo_env()
 from hdl21.params import _unique_name
 
 ASSUMPTIONS = [
-    "md5 collision freedom and json.dumps injectivity for the hashed name form (not modelled; pairwise distinctness checked)",
+    "md5 collision freedom and json.dumps as an injective rendering of JSON trees, for the hashed name form (the tree itself is modelled: NameEnc.lean)",
+    "two different Modules / ExternalModules / Generators used as parameter values have different qualified names (Python module + name)",
     "str(int)/repr(float) are injective (CPython); NaN-valued float parameters are outside the alphabet",
 ]
 TRUSTED = ["CPython str()/repr() of numbers"]
@@ -519,6 +520,97 @@ def two_libs():
         sys.path.remove(d)
 
 
+# ---- the hashed form against NameEnc.lean (theorem hashed_encoding_injective): types and values as the model takes them
+
+def _opt(t):
+    return {"k": "union", "a": {"k": "none"}, "b": t}
+
+
+SUB_TY = {"k": "pc", "fs": [["gain", _opt({"k": "float"})], ["tag", _opt({"k": "str"})], ["n", {"k": "int"}]]}
+KIND_TY = {
+    "oint": _opt({"k": "int"}), "obool": _opt({"k": "bool"}), "ofloat": _opt({"k": "float"}), "ostr": _opt({"k": "str"}),
+    "corner": {"k": "enum", "t": {"k": "str"}}, "ocorner": _opt({"k": "enum", "t": {"k": "str"}}), "omode": _opt({"k": "enum", "t": {"k": "int"}}),
+    "otup": _opt({"k": "tuple", "t": {"k": "int"}}), "tupstr": {"k": "tuple", "t": {"k": "str"}}, "sub": SUB_TY, "osub": _opt(SUB_TY),
+    "pre": {"k": "prefixed"}, "opre": _opt({"k": "prefixed"}), "gen": {"k": "named"}, "ogen": _opt({"k": "named"}), "ext": {"k": "named"}, "inst": {"k": "named"},
+}
+
+
+def model_value(v):
+    """a parameter value as NameEnc.PV — written from the value itself, not through the encoder under test"""
+    import dataclasses
+    from decimal import localcontext
+
+    if v is None:
+        return {"k": "none"}
+    if isinstance(v, Enum):
+        return {"k": "enum", "v": model_value(v.value)}
+    if isinstance(v, bool):
+        return {"k": "bool", "v": v}
+    if isinstance(v, int):
+        return {"k": "int", "v": str(v)}
+    if isinstance(v, float):
+        return {"k": "float", "v": repr(v)}
+    if isinstance(v, str):
+        return {"k": "str", "v": v}
+    if isinstance(v, (tuple, list)):
+        return {"k": "tuple", "xs": [model_value(x) for x in v]}
+    if isinstance(v, h.Prefixed):
+        with localcontext() as c:  # the exact value, shortest digits: equal numbers however written have one text
+            c.prec = 400
+            return {"k": "prefixed", "v": str(v.number.scaleb(v.prefix.value).normalize())}
+    if isinstance(v, h.Generator):
+        return {"k": "named", "v": f"{v.func.__module__}.{v.func.__name__}"}
+    if isinstance(v, (h.ExternalModule, h.Module)):
+        return {"k": "named", "v": f"{v._source_info.pymodule.__name__}.{v.name}" if False else f"{_home(v)}.{v.name}"}
+    if dataclasses.is_dataclass(v):
+        return {"k": "pc", "fs": [[f.name, model_value(getattr(v, f.name))] for f in dataclasses.fields(v)]}
+    raise TypeError(type(v).__name__)
+
+
+def _home(obj):
+    """the Python module an object of the two libraries was made in (the libraries make nothing anywhere else)"""
+    la, lb = two_libs()
+    for lib in (la, lb):
+        if obj in (lib.Ext, lib.Mod) or getattr(getattr(obj, "_generated_by", None), "gen", None) is lib.Cell:
+            return lib.__name__
+    raise ValueError(obj)
+
+
+def impl_tree(params):
+    """the JSON text `_unique_name` hashes, read back as a tree in the model's output format"""
+    from hdl21.params import hdl21_naming_encoder
+
+    text = json.dumps(params, indent=4, default=hdl21_naming_encoder)
+    raw = json.loads(text, parse_float=lambda x: {"f": x}, parse_int=lambda x: {"i": x}, object_pairs_hook=lambda ps: {"o": [[k, v] for k, v in ps]})
+
+    def wrap(x):
+        if isinstance(x, str):
+            return {"s": x}
+        if isinstance(x, list):
+            return {"a": [wrap(y) for y in x]}
+        if isinstance(x, dict) and "o" in x:
+            return {"o": [[k, wrap(v)] for k, v in x["o"]]}
+        return x
+    return wrap(raw), text
+
+
+def tree_text(t):
+    """`json.dumps(…, indent=4)` of a model tree"""
+    def un(x):
+        if isinstance(x, dict):
+            if "s" in x:
+                return x["s"]
+            if "i" in x:
+                return int(x["i"])
+            if "f" in x:
+                return float(x["f"])
+            if "a" in x:
+                return [un(y) for y in x["a"]]
+            return {k: un(v) for k, v in x["o"]}
+        return x
+    return json.dumps(un(t), indent=4)
+
+
 def hashed_check(ctx):
     """The md5-of-JSON form over generated shapes: optional fields at falsy values against None, enums (also IntEnum members of
     value 0), tuples, nested param-classes, Prefixed, and Generator- / ExternalModule- / Module-valued fields holding same-named
@@ -572,7 +664,7 @@ def hashed_check(ctx):
     }
     hashers = ["corner", "ocorner", "omode", "otup", "tupstr", "sub", "osub", "pre", "opre", "gen", "ogen", "ext", "inst"]
     nshapes = 40 if ctx.quick else 800
-    stats = {"pairs": 0, "equal_pairs": 0, "exported": 0}
+    stats = {"pairs": 0, "equal_pairs": 0, "exported": 0, "trees": 0}
     singles = list(pools)  # corpus: every kind alone (next to a tuple, which forces the hashed form), with all its values
     for t in range(len(singles) + nshapes):
         if t < len(singles):
@@ -605,6 +697,23 @@ def hashed_check(ctx):
         except Exception as ex:  # noqa
             rep.fail("pred", case, f"a valid generator call raised {type(ex).__name__}: {str(ex)[:200]}", "call-raised")
             continue
+        # the tree the name is the md5 of, against the model's (theorem hashed_encoding_injective is about that tree)
+        import hashlib
+        ty = {"k": "pc", "fs": [[nm, KIND_TY[k]] for nm, k in fields]}
+        mouts = ctx.drv.run([{"prop": "NE", "op": "enc", "ty": ty, "val": model_value(p)} for p in ps])
+        for p, v, m, mo in zip(ps, case["values"], mods, mouts):
+            stats["trees"] += 1
+            if not (mo.get("wf") and mo.get("has")):
+                rep.fail("oracle", dict(case, value=v), {"why": "the harness's value is not of the harness's type, by the model", "model": mo})
+                break
+            tree, text = impl_tree(p)
+            if tree != mo["enc"]:
+                rep.fail("corr", dict(case, value=v), {"why": "the tree the naming encoder makes of the value differs from the model's", "impl": tree, "model": mo["enc"]})
+                break
+            want = f"H{t}(" + hashlib.md5(tree_text(mo["enc"]).encode()).hexdigest() + ")"
+            if m.name != want:
+                rep.fail("corr", dict(case, value=v), {"why": "the module is not named by the md5 of the model's tree", "name": m.name, "want": want})
+                break
         bad = False
         for i in range(len(vals)):
             for j in range(i):
